@@ -69,7 +69,10 @@ var (
 )
 
 const (
-	receiveMTU            uint32 = 8192 // MTU for inbound packet (from DTLS)
+	// receiveMTU is the size of the buffer the transport is read with. It has to hold the
+	// largest packet a peer may send: a SACK names one gap block per isolated TSN of the
+	// tracking window and is not bounded by the MTU for outgoing data.
+	receiveMTU            uint32 = 65536
 	initialMTU            uint32 = 1191 // initial MTU for outgoing packets (to DTLS)
 	initialRecvBufSize    uint32 = 1024 * 1024
 	commonHeaderSize      uint32 = packetHeaderSize
